@@ -158,6 +158,7 @@ func checkEntry(w *hc.W, e common.Entry) {
 		evs []ri.Ev
 	}
 	var singles []single // well-decoded single sequences for concatenation
+	var escSingle *single
 	addSingle := func(seq string, evs []ri.Ev) {
 		if len(evs) == 1 {
 			singles = append(singles, single{seq, evs})
@@ -230,6 +231,8 @@ func checkEntry(w *hc.W, e common.Entry) {
 			x := ri.ConvAll(p.Expire())
 			if len(x) != 1 || x[0].Kind != "key" || x[0].Key != tcell.KeyEsc || x[0].Mod != 0 || len(p.Pending()) != 0 {
 				viol("lone-esc", seq, fmt.Sprintf("a lone ESC decodes to %s after the timeout, want [Key(Esc,mod=0)]", fmtEvs(x)))
+			} else {
+				escSingle = &single{seq, x} // the Esc key is a key too: ESC ESC is Alt+Esc
 			}
 			continue
 		}
@@ -263,7 +266,12 @@ func checkEntry(w *hc.W, e common.Entry) {
 	}
 
 	// (d) ESC prefix => Alt
-	for _, s := range append([]single{}, singles...) {
+	altSingles := append([]single{}, singles...)
+	if escSingle != nil {
+		// only for the Alt clause: in a concatenation a leading ESC is the Alt prefix of what follows
+		altSingles = append(altSingles, *escSingle)
+	}
+	for _, s := range altSingles {
 		seq := "\x1b" + s.seq
 		if _, isOwn := assigned[seq]; isOwn {
 			continue // the description gives the ESC-prefixed sequence its own meaning
